@@ -97,6 +97,8 @@ run_check() { # id tier...
 		return $?
 		;;
 	C18)
+		build_plain
+		export VERIF_PLAIN_VH="$SCR/vh"
 		build_inst "-race"
 		equivalence_gate "${1:-quick}"
 		export VERIF_BUILD="seams=maporder,clock,yield,lock;race"
